@@ -418,6 +418,8 @@ impl<T> AtomicBucket<T> {
             {
                 break;
             }
+            #[cfg(metrics_verif)]
+            metrics::verif::point("bkt.clear.load_tail");
             block_ptr = self.tail.load(Ordering::Acquire, guard);
         }
 
